@@ -166,7 +166,8 @@ def run_values(rep, r, wd, quick):
             if c.get("budget") == 64 or (i + j) % 4 == 3:
                 ops = ["Call", "Forget", "Call", "Call", "Memento", "Forget", "Forget", "Call"]     # forget straight after the first call
             if term["t"] == "ovr":
-                ops = ["Call", "Disturb", "Call", "Reopen", "Call", "Memento", "Forget", "Call", "Disturb", "Reopen", "Call"]
+                # (the key is occupied by another call's result before this call publishes its own, and again later)
+                ops = ["Disturb", "Call", "Call", "Reopen", "Call", "Memento", "Forget", "Disturb", "Call", "Reopen", "Call", "Disturb", "Call"]
             jobs.append({"term": term, "cfg": dict(c, mod=m_), "ops": ops})
     traces = common.run_jobs("values_worker.py", jobs, wd, timeout=2400)
     payload = [{"cfg": values.mon_cfg(t["term"], t["cfg"]["mod"]), "ev": t["ev"]} for t in traces]
